@@ -76,3 +76,48 @@ func c10RotatedRestart(c *Ctx, l *lib.Lean, rng *rand.Rand) error {
 	check("revoking one token changed the validity of another (after a restart with a changed admin token)", toks[1], "pass user", "connected", "c10-valid-token-refused-after-admin-rotation")
 	return nil
 }
+
+// c10RawRevoke (oracle only; the model's strings are valid UTF-8): revoke(unknown) where the unknown value is an issued
+// token plus a byte that is not valid UTF-8 — "creating or revoking one token never changes the validity of any
+// other": the issued token still authenticates afterwards (HTTP and websocket), and the value itself never does.
+func c10RawRevoke(c *Ctx, l *lib.Lean, rng *rand.Rand) error {
+	if c.Replay != "" {
+		return nil
+	}
+	admin := "adm" + c09RandToken(rng, 22)
+	r := &c10Run{c: c, l: l, file: lib.TempDB("c10-raw.db"), admin: admin, live: map[string]bool{}, kinds: map[string]bool{}}
+	if err := r.open(); err != nil {
+		return err
+	}
+	defer r.close()
+	_, resp := r.httpDo("POST", c09Prefix+"/access", "Bearer "+admin, true)
+	var tok struct {
+		Token string `json:"token"`
+	}
+	if resp.Status != 200 || json.Unmarshal([]byte(resp.Body), &tok) != nil || tok.Token == "" {
+		return nil
+	}
+	for _, v := range []struct{ name, val string }{{"token + 0xff", tok.Token + "\xff"}, {"0xc3 + token", "\xc3" + tok.Token}, {"token with 0xfe inside", tok.Token[:7] + "\xfe" + tok.Token[7:]}} {
+		esc := ""
+		for i := 0; i < len(v.val); i++ {
+			esc += fmt.Sprintf("%%%02X", v.val[i])
+		}
+		r.ops = []string{fmt.Sprintf("# c10 raw revoke: token T issued; DELETE %s/access/<%s> (%s) by the admin; then T and the raw value are presented", c09Prefix, v.name, esc)}
+		c.R.OracleChecked++
+		c.R.Count("credential / revocation value that is not valid UTF-8", 1)
+		if got := r.authGet("Bearer " + v.val); got == "pass user" || got == "pass admin" {
+			r.fail("a never-issued value ("+v.name+") authenticates", "401", got, "c10-invalid-token-accepted:http")
+		}
+		_, del := r.httpDo("DELETE", c09Prefix+"/access/"+esc, "Bearer "+admin, true)
+		c.R.OracleChecked += 2
+		if got := r.authGet("Bearer " + tok.Token); got != "pass user" {
+			r.fail(fmt.Sprintf("revoking a never-issued value (%s; answered %d) changed the validity of an issued token (HTTP)", v.name, del.Status), "pass user", got, "c10-revoke-of-unknown-hits-issued-token:http")
+			return nil
+		}
+		if got := r.wsConnect(tok.Token); got != "connected" {
+			r.fail(fmt.Sprintf("revoking a never-issued value (%s; answered %d) changed the validity of an issued token (websocket handshake)", v.name, del.Status), "connected", got, "c10-revoke-of-unknown-hits-issued-token:ws")
+			return nil
+		}
+	}
+	return nil
+}
